@@ -271,6 +271,75 @@ def job_bounds_inttime(job, nx):
         job.prove(f"{tag}/reach[path{k}]", pr.pc, expect="sat")
 
 
+def replay_reuse(model, nx=3, how="field"):
+    """Real run: one SinglePhaseReservoir simulated, its frac-face pressure changed (public dataclass field, or a run
+    with an explicit schedule in between), simulated again with very large last steps: the second field must lie in
+    [m(p_f of that run), m_i] and relax to m(p_f of that run)."""
+    import numpy as np
+    from bluebonnet.flow import reservoir as rr
+    from .c04 import _real_fluid
+    fluid = _real_fluid()
+    t = np.concatenate([np.linspace(0, 2.0, 30) ** 2, [50.0, 1e4]])
+    res = rr.SinglePhaseReservoir(max(nx, 8), 1000.0, 8000.0, fluid)
+    res.simulate(t)
+    if how == "field":
+        res.pressure_fracface = 6000.0
+        pf2 = 6000.0
+    else:
+        res.simulate(t, pressure_fracface=np.linspace(7000.0, 3000.0, len(t)))
+        pf2 = float(np.ravel(res.pressure_fracface)[0]) if np.ndim(res.pressure_fracface) == 0 else 1000.0
+    res.simulate(t)
+    pp = np.asarray(res.pseudopressure, float)
+    m_f, m_i = float(fluid.m_scaled_func(pf2)), float(fluid.m_i)
+    problems = []
+    if pp.min() < m_f - 1e-9 * m_i or pp.max() > m_i * (1 + 1e-9):
+        problems.append(f"field [{pp.min()!r}, {pp.max()!r}] leaves [m_f, m_i] = [{m_f!r}, {m_i!r}]")
+    if np.abs(pp[-1] - m_f).max() > 1e-6 * m_i:
+        problems.append(f"after a 1e4 step the field is {pp[-1].min()!r}..{pp[-1].max()!r}, not the frac-face value {m_f!r}")
+    return bool(problems), {"what": f"re-used SinglePhaseReservoir ({'pressure_fracface reassigned 1000 -> 6000' if how == 'field' else 'schedule run in between'}), "
+                                    f"second constant-drawdown run: " + ("; ".join(problems) or "inside the bounds"), "inputs": {}}
+
+
+def job_reuse(job, nx, how):
+    """The bounds refer to the frac-face pressure of *this* run: a second constant-drawdown run on an object whose
+    frac-face setting was changed in between (dataclass field reassigned / a schedule run in between) obeys them with
+    the value in force when it starts."""
+    job.solve_defaults = {"abstract": True}
+    mod = load_reservoir()
+    cls = "SinglePhaseReservoir"
+    job.encoded(mod, f"{cls}.simulate")
+    tag = f"{cls}[nx={nx},re-used object,{how}]"
+    rp = (replay_reuse, {"nx": nx, "how": how})
+
+    def run():
+        SS.LinSolve.reset(policy_exact())
+        SS.reset_names()
+        t1, _ = times(2, prefix="u")
+        t2, _ = times(2)
+        fluid = FluidStub()
+        r = mod.SinglePhaseReservoir(Q(nx), fresh("pf"), fresh("pi", pos=True), fluid)
+        r.simulate(t1)
+        if how == "field":
+            r.pressure_fracface = fresh("pf2")
+        else:
+            r.simulate(t1, pressure_fracface=SymArray([fresh("s0"), fresh("s1")], "f8"))
+        r.simulate(t2)
+        mf = fluid.m_scaled_func(r.pressure_fracface)
+        return r, fluid, mf
+
+    for k, pr in enumerate(paths(job, run, [], max_paths=16)):
+        if pr.exc is not None:
+            job.prove(f"{tag}/second run raises {type(pr.exc).__name__}[path{k}]", pr.pc, bound=f"nx={nx}", replay=rp, note=repr(pr.exc)[:100], elim=True)
+            continue
+        r, fluid, mf = pr.value
+        rows = rows_of(r)
+        job.prove(f"{tag}/base: level 1 within [frac-face value of this run, initial][path{k}]", pr.pc + [_outside(rows[1], mf, fluid.m_i)],
+                  bound=f"nx={nx}, any dt>0", replay=rp)
+        job.prove(f"{tag}/frac-face node starts at this run's frac-face value[path{k}]", pr.pc + [T.b_not(T.b_eq0(T.p_sub(P(rows[0][0]), P(mf))))],
+                  bound=f"nx={nx}", replay=rp)
+        job.prove(f"{tag}/reach[path{k}]", pr.pc, expect="sat", elim=True)
+
+
 def job_space(job, cls, nx):
     """Constant drawdown: non-decreasing away from the fracture (invariant with the bounds)."""
     job.solve_defaults = {"abstract": True}
@@ -437,6 +506,8 @@ def jobs(tier):
         for nx in ((3, 4) if tier == "quick" else (3, 4, 6, 8)):
             out.append((f"fixed-{cls[:6]}-{nx}", lambda j, c=cls, n=nx: job_fixed_point(j, c, n)))
     out.append(("bounds-inttime-3", lambda j: job_bounds_inttime(j, 3)))
+    out.append(("reuse-field-3", lambda j: job_reuse(j, 3, "field")))
+    out.append(("reuse-schedule-3", lambda j: job_reuse(j, 3, "schedule")))
     for nx in ((3, 5, 8) if tier == "quick" else (3, 4, 5, 6, 7, 8, 12, 20)):
         out.append((f"matrix-{nx}", lambda j, n=nx: job_matrix(j, n)))
     return out
